@@ -100,6 +100,9 @@ type violRecord struct {
 	Run  int             `json:"run"`
 	V    Violation       `json:"v"`
 	Plan json.RawMessage `json:"plan"`
+	// ProcStart is the first run id the worker process that found this had executed: the
+	// runs ProcStart, ProcStart+W, ..., Run are the process history of the violation
+	ProcStart int `json:"proc_start"`
 }
 
 type execResult struct {
@@ -124,6 +127,9 @@ type replayFile struct {
 	Shrunk    bool            `json:"shrunk"`
 	ShrinkLog string          `json:"shrink_log,omitempty"`
 	Plan      json.RawMessage `json:"plan"`
+	// History: plans of earlier, independent sessions that have to run in the same process
+	// before Plan for the violation to appear (library state that leaks between sessions)
+	History []json.RawMessage `json:"history,omitempty"`
 }
 
 type knownFinding struct {
@@ -410,7 +416,7 @@ func (p *Property) worker() {
 							vp = b
 						}
 					}
-					sum.Viol = append(sum.Viol, violRecord{id, v, json.RawMessage(vp)})
+					sum.Viol = append(sum.Viol, violRecord{id, v, json.RawMessage(vp), start})
 				}
 			}
 			if p.Isolate {
@@ -420,6 +426,65 @@ func (p *Property) worker() {
 		}
 	}
 	emit()
+}
+
+// histJSON renders a process history followed by the judged plan as one JSON array.
+func histJSON(history []json.RawMessage, last json.RawMessage) []byte {
+	all := append(append([]json.RawMessage{}, history...), last)
+	b, _ := json.Marshal(all)
+	return b
+}
+
+// historyOf regenerates the plans a worker process had executed before the run of v.
+func (p *Property) historyOf(v violRecord, W int, seed uint64, tier string, directed []any) []json.RawMessage {
+	if p.ChildPerRun || v.ProcStart < 0 || v.Run < 0 || W < 1 {
+		return nil
+	}
+	var out []json.RawMessage
+	for id := v.ProcStart; id < v.Run; id += W {
+		out = append(out, json.RawMessage(p.planFor(seed, tier, id, directed)))
+	}
+	if len(out) > 4000 {
+		out = out[len(out)-4000:]
+	}
+	return out
+}
+
+// shrinkHistory: delta debugging over the earlier sessions (the judged plan stays).
+func (p *Property) shrinkHistory(history []json.RawMessage, last json.RawMessage, key string) []json.RawMessage {
+	holds := func(h []json.RawMessage) bool {
+		res, err := p.execInChild(histJSON(h, last), false)
+		if err != nil {
+			return false
+		}
+		_, ok := hasKey(res.Viol, key)
+		return ok
+	}
+	cur := history
+	budget := 60
+	for chunk := (len(cur) + 1) / 2; chunk >= 1 && budget > 0; {
+		removed := false
+		for i := 0; i+chunk <= len(cur) && budget > 0; {
+			cand := append(append([]json.RawMessage{}, cur[:i]...), cur[i+chunk:]...)
+			budget--
+			if holds(cand) {
+				cur = cand
+				removed = true
+			} else {
+				i += chunk
+			}
+		}
+		if chunk == 1 && !removed {
+			break
+		}
+		if !removed || chunk > len(cur) {
+			chunk /= 2
+		}
+		if chunk > len(cur) && len(cur) > 0 {
+			chunk = len(cur)
+		}
+	}
+	return cur
 }
 
 func truncate(s string, n int) string {
@@ -437,7 +502,20 @@ func (p *Property) execChild() {
 	plan, _ := readAll(os.Stdin)
 	verbose := len(os.Args) > 2 && os.Args[2] == "-v"
 	done := make(chan *Run, 1)
-	go func() { done <- p.execPlan(plan, verbose) }()
+	go func() {
+		// a JSON array is a process history: earlier sessions first, the last one is judged
+		if t := bytes.TrimSpace(plan); len(t) > 0 && t[0] == '[' {
+			var hist []json.RawMessage
+			if json.Unmarshal(t, &hist) == nil && len(hist) > 0 {
+				for _, h := range hist[:len(hist)-1] {
+					p.execPlan(h, false)
+				}
+				done <- p.execPlan(hist[len(hist)-1], verbose)
+				return
+			}
+		}
+		done <- p.execPlan(plan, verbose)
+	}()
 	var run *Run
 	select {
 	case run = <-done:
@@ -556,7 +634,12 @@ func (p *Property) replay(path string) int {
 		fmt.Println("bad replay file:", err)
 		return 2
 	}
-	res, err := p.execInChild(rf.Plan, true)
+	toRun := []byte(rf.Plan)
+	if len(rf.History) > 0 {
+		fmt.Printf("replaying %d earlier session(s) in the same process first\n", len(rf.History))
+		toRun = histJSON(rf.History, rf.Plan)
+	}
+	res, err := p.execInChild(toRun, true)
 	if err != nil {
 		fmt.Println("replay failed to execute:", err)
 		return 2
@@ -850,7 +933,7 @@ func (p *Property) check(tier string) int {
 	for _, hp := range hangs {
 		k := p.ID + "|watchdog|hang"
 		if _, ok := groups[k]; !ok {
-			groups[k] = &group{violRecord{-1, Violation{p.ID, "watchdog", "hang", "a run exceeded the per-run watchdog"}, hp}, 1}
+			groups[k] = &group{violRecord{-1, Violation{p.ID, "watchdog", "hang", "a run exceeded the per-run watchdog"}, hp, -1}, 1}
 			order = append(order, k)
 		}
 	}
@@ -871,11 +954,48 @@ func (p *Property) check(tier string) int {
 			fmt.Printf("[%s] harness: %v\n", p.ID, err)
 			return 2
 		}
+		var history []json.RawMessage
 		if _, ok := hasKey(res.Viol, k); !ok {
-			fmt.Printf("[%s] violation %s (run %d) did not reproduce in a fresh process: treated as harness nondeterminism\n", p.ID, k, g.first.Run)
-			if exit == 0 {
-				exit = 2
+			// not reproducible alone: replay the process history of the worker that found it
+			// (the runs it had executed before, in order). If the violation then reappears, state
+			// inside the library leaks from one independent session into the next.
+			var directed []any
+			if p.Directed != nil {
+				directed = p.Directed(tier)
 			}
+			history = p.historyOf(g.first, W, seed, tier, directed)
+			reproduced := false
+			if len(history) > 0 {
+				if hres, herr := p.execInChild(histJSON(history, g.first.Plan), false); herr == nil {
+					_, reproduced = hasKey(hres.Viol, k)
+				}
+			}
+			if !reproduced {
+				fmt.Printf("[%s] violation %s (run %d) did not reproduce in a fresh process, nor after replaying the %d earlier runs of its worker: treated as harness nondeterminism\n", p.ID, k, g.first.Run, len(history))
+				if exit == 0 {
+					exit = 2
+				}
+				continue
+			}
+			history = p.shrinkHistory(history, g.first.Plan, k)
+		}
+		if history != nil {
+			res, _ = p.execInChild(histJSON(history, g.first.Plan), false)
+			v, _ := hasKey(res.Viol, k)
+			res2, _ := p.execInChild(histJSON(history, g.first.Plan), false)
+			if res2 != nil && res2.Digest == res.Digest {
+				replayVerified++
+			}
+			v.Message += fmt.Sprintf(" [history-dependent: appears only after %d earlier independent session(s) in the same process, not in a fresh process — state leaks between sessions]", len(history))
+			rf := replayFile{Property: p.ID, Seed: seed, Run: g.first.Run, Violation: v, Digest: res.Digest, Shrunk: true, ShrinkLog: "history reduced by delta debugging", Plan: g.first.Plan, History: history}
+			name := fmt.Sprintf("%s-%d-%d-%s.json", p.ID, seed, g.first.Run, sanitize(v.Component+"-"+v.Class+"-history"))
+			path := filepath.Join(OutDir(), "replays", name)
+			b, _ := json.MarshalIndent(rf, "", " ")
+			os.WriteFile(path, b, 0o644)
+			fmt.Printf("[%s] %s — %s (seen in %d runs; first run %d)\n", p.ID, k, v.Message, g.count, g.first.Run)
+			fmt.Printf("VIOLATION property=%s replay=%s\n", p.ID, path)
+			newViol++
+			exit = 1
 			continue
 		}
 		plan := []byte(g.first.Plan)
